@@ -244,7 +244,14 @@ func (s *mstate) apply(o op, n int) (src string, want string) {
 					p = append(p, fmt.Sprint(v))
 				}
 			}
-			return fmt.Sprintf("%s := i%d=@{|v| v}", r, o.J), "[" + strings.Join(p, ", ") + "]"
+			// ... and a property-call chain visits them too (nil.S is "nil", nil.nil? is true)
+			q := make([]string, len(p))
+			nq := make([]string, len(p))
+			for i, x := range p {
+				q[i] = `"` + x + `"`
+				nq[i] = fmt.Sprint(x == "nil")
+			}
+			return fmt.Sprintf("%s := [i%d=@{|v| v}, i%d@S, i%d@nil?]", r, o.J, o.J, o.J), "[[" + strings.Join(p, ", ") + "], [" + strings.Join(q, ", ") + "], [" + strings.Join(nq, ", ") + "]]"
 		}
 		return fmt.Sprintf("%s := i%d@{|v| v * 10 + 1}", r, o.J), ints(vs, func(v int) int { return v*10 + 1 })
 	case "reduce":
@@ -577,6 +584,65 @@ func runFactory(c *core.Ctx) {
 	}, func(f fcase) string { return f.facSrc() }, func(f fcase, o panrun.Obs) { judgeFactory(c, f, o) })
 }
 
+// ---------------------------------------------------------------- the body of a chain steps another iterator
+
+// a visits 0..A-1, b yields 10..10+B-1. A chain over a whose body calls b.next visits every value of a; when b is
+// exhausted first the StopIterErr of the body comes out of the chain (the chain does not end quietly), and a is
+// not advanced in either case.
+func (f fcase) crossSrc() string {
+	var a, b, form int
+	fmt.Sscanf(f.Hist[0], "%d %d %d", &a, &b, &form)
+	chain := []string{"a@{|x| [x, b.next]}", "a@^g", "a=@{|x| [x, b.next]}", "a$([]){|acc, x| acc + [[x, b.next]]}", "a&@{|x| [x, b.next]}"}[form]
+	return fmt.Sprintf("gen := <{|i, n| yield i if i < n; recur(i + 1, n)}>\na := gen.new(0, %d)\nb := gen.new(10, %d)\ng := {|x| [x, b.next]}\nr := nil.try.{|u| %s}.A\n[r, a.A, b.A]", a, 10+b, chain)
+}
+
+func (f fcase) crossWant() string {
+	var a, b, form int
+	fmt.Sscanf(f.Hist[0], "%d %d %d", &a, &b, &form)
+	seq := func(from, to int) string {
+		var p []string
+		for i := from; i < to; i++ {
+			p = append(p, fmt.Sprint(i))
+		}
+		return "[" + strings.Join(p, ", ") + "]"
+	}
+	if b < a {
+		return "[[nil, [StopIterErr: iter stopped]], " + seq(0, a) + ", []]"
+	}
+	var pairs []string
+	for i := 0; i < a; i++ {
+		pairs = append(pairs, fmt.Sprintf("[%d, %d]", i, 10+i))
+	}
+	return "[[[" + strings.Join(pairs, ", ") + "], nil], " + seq(0, a) + ", " + seq(10+a, 10+b) + "]"
+}
+
+func judgeCross(c *core.Ctx, f fcase, o panrun.Obs) {
+	c.Validated(1)
+	c.Nontrivial(1)
+	if o.Kind == "syntax" {
+		c.HarnessError("cross program does not parse: %s: %s", f.crossSrc(), o.ErrMsg)
+		return
+	}
+	c.Outcome("cross:" + o.Kind)
+	want := f.crossWant()
+	if o.Kind == "value" && o.Repr == want {
+		return
+	}
+	c.Violation(core.Violation{Key: "chain-body-steps-another-iterator", Case: core.JSON(f), Desc: strings.ReplaceAll(f.crossSrc(), "\n", "; "), Expected: want, Observed: o.Short(), Repro: "zz := {||\n" + f.crossSrc() + "\n}\nzz().p\n"})
+}
+
+func runCross(c *core.Ctx) {
+	tk.Batched(c, 100, "", func(emit func(fcase)) {
+		for a := 0; a <= 4; a++ {
+			for b := 0; b <= 5; b++ {
+				for form := 0; form < 5; form++ {
+					emit(fcase{Mode: "cross", Hist: []string{fmt.Sprintf("%d %d %d", a, b, form)}})
+				}
+			}
+		}
+	}, func(f fcase) string { return f.crossSrc() }, func(f fcase, o panrun.Obs) { judgeCross(c, f, o) })
+}
+
 func runFresh(c *core.Ctx) {
 	depth := c.Pick(3, 4)
 	tk.Batched(c, 300, "", func(emit func(fcase)) {
@@ -599,6 +665,7 @@ func runFresh(c *core.Ctx) {
 func run(c *core.Ctx) {
 	runFresh(c)
 	runFactory(c)
+	runCross(c)
 	depth := c.Pick(5, 6)
 	c.Note("depth_after_first_new", depth)
 	states := map[string]bool{}
@@ -622,6 +689,12 @@ func run(c *core.Ctx) {
 
 func replay(c *core.Ctx, raw json.RawMessage) {
 	var f fcase
+	if json.Unmarshal(raw, &f) == nil && f.Mode == "cross" {
+		obs := c.R().Thunks("", []string{f.crossSrc()}, "")
+		c.Eval(1)
+		judgeCross(c, f, obs[0])
+		return
+	}
 	if json.Unmarshal(raw, &f) == nil && f.Mode == "factory" {
 		obs := c.R().Thunks("", []string{f.facSrc()}, "")
 		c.Eval(1)
